@@ -193,6 +193,7 @@ def need_mut(ex, b):
 
 def replace_bytes(b, new):
     b.length, b._at, b.conc = new.length, new._at, new.conc
+    N.clone_meta(new, b)
 
 
 def byte_value(ex, v):
@@ -246,11 +247,11 @@ def bytes_method(ex, b, name, args, kwargs):
             return bytes(b.conc).hex()
         return OPAQUE
     if name in ('tobytes',):
-        return SBytes(b.length, b._at, False, conc=b.conc)
+        return N.clone_meta(b, SBytes(b.length, b._at, False, conc=b.conc))
     if name == 'release':
         return None
     if name == 'copy':
-        return SBytes(b.length, b._at, b.mutable, conc=b.conc)
+        return N.clone_meta(b, SBytes(b.length, b._at, b.mutable, conc=b.conc))
     if name == 'tolist':
         n = b.concrete_len()
         if n is None:
